@@ -447,17 +447,26 @@ Definition quote_byte (safe : list N) (b : N) : list N :=
   else [PERCENT; hex_digit (b / 16); hex_digit (b mod 16)].
 Definition quote (safe : list N) (s : str) : str := flat_map (quote_byte safe) (utf8_encode s).
 
+(* a result of the URL builder: a value, a ValueError escaping from a converter's to_url / a BuildError,
+   or a value combination the model does not cover *)
+Inductive bres (A : Type) := BOk (x : A) | BValueError | BUnsupported.
+Arguments BOk {A} x. Arguments BValueError {A}. Arguments BUnsupported {A}.
+
 Inductive outcome :=
 | Match (r : rule) (vs : list (str * value))
 | RedirectTo (url : str)
 | NotFound
 | MethodNotAllowed (ms : list str)
-| WsMismatch.
+| WsMismatch
+| Raised (unsupported : bool).     (* the URL builder raised while canonicalising (defaults / alias redirect) *)
 
 (* the two places where MapAdapter.match consults the URL builder (C04 / C12 instantiate them) *)
 Record hooks := {
-  h_alias : rmap -> adapter -> str -> rule -> list (str * value) -> str;       (* make_alias_redirect_url *)
-  h_default : rmap -> adapter -> str -> rule -> list (str * value) -> option str }.   (* get_default_redirect *)
+  h_alias : rmap -> adapter -> str -> rule -> list (str * value) -> bres str;            (* make_alias_redirect_url *)
+  h_default : rmap -> adapter -> str -> rule -> list (str * value) -> bres (option str) }.   (* get_default_redirect *)
+
+Definition of_bres (b : bres outcome) : outcome :=
+  match b with BOk o => o | BValueError => Raised false | BUnsupported => Raised true end.
 
 (* MapAdapter.match(path_info, method) on a prebuilt tree (redirect_to rules are outside the model) *)
 Definition adapter_match (h : hooks) (m : rmap) (root : rstate) (a : adapter) (path_info meth : str) : outcome :=
@@ -468,11 +477,18 @@ Definition adapter_match (h : hooks) (m : rmap) (root : rstate) (a : adapter) (p
       if negb (is_nil hm) then MethodNotAllowed hm else if wsm then WsMismatch else NotFound
   | MOk _ _ r v =>
       let result := dict_update v (r_defaults r) in
-      if r_alias r && m_redirect_defaults m then RedirectTo (h_alias h m a meth r result)
+      if r_alias r && m_redirect_defaults m then
+        match h_alias h m a meth r result with
+        | BOk u => RedirectTo u
+        | BValueError => Raised false
+        | BUnsupported => Raised true
+        end
       else if m_redirect_defaults m then
         match h_default h m a meth r result with
-        | Some u => RedirectTo u
-        | None => Match r result
+        | BOk (Some u) => RedirectTo u
+        | BOk None => Match r result
+        | BValueError => Raised false
+        | BUnsupported => Raised true
         end
       else Match r result
   end.
@@ -482,7 +498,7 @@ Definition map_match (h : hooks) (m : rmap) (a : adapter) (path_info meth : str)
 
 (* maps without defaults and aliases never consult the builder *)
 Definition no_hooks : hooks :=
-  {| h_alias := fun _ _ _ _ _ => []; h_default := fun _ _ _ _ _ => None |}.
+  {| h_alias := fun _ _ _ _ _ => BUnsupported; h_default := fun _ _ _ _ _ => BOk None |}.
 
 (* ------------------------------------------------------------------ checkpoints for the harness *)
 Inductive tok := TOpen | TClose | TBar | TRule (i : N) | TStat (k : str) | TDyn (content : str).
